@@ -447,7 +447,7 @@ def lookup_returning(F, fns):
     changed = True
     while changed:
         changed = False
-        for g in fns:
+        for g in sorted(fns):
             if g in R:
                 continue
             f = F.fns[g]
@@ -465,7 +465,7 @@ def lookup_returning(F, fns):
             if g not in flows:
                 fl = FnFlow(f)
                 flows[g] = Origins(fl, keep=not_residual).of_local(0)
-            for o in flows[g]:
+            for o in sorted(flows[g], key=repr):
                 if o[0] != "call":
                     continue
                 if LOOKUPS.search(o[1]):
@@ -515,7 +515,7 @@ def find_lookup(F, f, O, operand, R, depth=0):
     """origin of the operand that is a lookup (direct, through a lookup-returning local function, or
     through a closure parameter fed by a higher-order call on a looked-up value)"""
     org = O.of_operand(operand)
-    for o in org:
+    for o in sorted(org, key=repr):      # deterministic choice of the reported lookup
         if o[0] == "call":
             if LOOKUPS.search(o[1]):
                 return o[1]
